@@ -937,6 +937,11 @@ class Interp:
         if a is SHAPE or b is SHAPE:
             raise Undecided("shape comparison")
         if isinstance(a, Obj) and isinstance(b, Obj) and isinstance(op, (ast.Eq, ast.NotEq)):
+            if a is not b and "__eq__" in self.externals:
+                try:
+                    return bool(self.externals["__eq__"](a, b)) == isinstance(op, ast.Eq)  # the class's own __eq__
+                except NotHandled:
+                    pass
             return (a is b) == isinstance(op, ast.Eq)
         if isinstance(a, (tuple, list, dict)) and isinstance(b, (tuple, list, dict)) and isinstance(op, (ast.Eq, ast.NotEq)):
             return (a == b) == isinstance(op, ast.Eq)
@@ -1074,10 +1079,11 @@ class Interp:
             left = self.eval(e.left)
             for op, c in zip(e.ops, e.comparators):
                 right = self.eval(c)
+                same_cls_ = isinstance(left, str) and isinstance(right, str) and left.startswith("class:") and left == right  # type(a) is type(b)
                 if isinstance(op, ast.Is):
-                    ok = (left is right) or (left is None and right is None)
+                    ok = (left is right) or (left is None and right is None) or same_cls_
                 elif isinstance(op, ast.IsNot):
-                    ok = not ((left is right) or (left is None and right is None))
+                    ok = not ((left is right) or (left is None and right is None) or same_cls_)
                 elif isinstance(op, (ast.In, ast.NotIn)):
                     if isinstance(right, dict):
                         right = list(right.keys())
@@ -1668,6 +1674,8 @@ class Interp:
             v = ev(args[0])
             if isinstance(v, Obj) and "__class__" in v.attrs:
                 return v.attrs["__class__"]
+            if isinstance(v, Obj) and getattr(v, "cls", None) is not None:
+                return "class:" + v.cls.name  # an instance of a modelled class: classes compare by name (`type(a) is type(b)`)
             raise Undecided("type() of an object without a modelled class")
         if name == "dict" and isinstance(f, ast.Name):
             d = dict(ev(args[0])) if args else {}
